@@ -60,6 +60,21 @@ def corpus(thorough):
            {"reactants": ["HOCH2CH2CH2OH", "H3+"], "products": ["HOCH2CH2CH2OH2+", "H2"], "alpha": 2e-9, "beta": -0.5, "reaction_type": 100, "idxfromfile": 13},
            {"reactants": ["HOCH2CH2CH2OH2+", "e-"], "products": ["HOCH2CH2CH2OH", "H"], "alpha": 3e-7, "beta": -0.5, "reaction_type": 100, "idxfromfile": 14}]
     out.append(("API", {"reactions": api, "network": {}}, None, "api"))
+    # gas-grain network whose binding energies and photon yields were customised by the user: the export must carry them
+    # API-built gas-grain network whose binding energies were customised by the user: the export must carry them
+    ice = [{"reactants": [x], "products": ["#" + x], "alpha": 1.0, "reaction_type": 200, "idxfromfile": 20 + k} for k, x in enumerate(("C", "O", "CO"))]
+    ice += [{"reactants": ["#" + x], "products": [x], "alpha": 1.0, "reaction_type": 201, "idxfromfile": 30 + k} for k, x in enumerate(("C", "O", "CO"))]
+    ice += [{"reactants": ["C", "O"], "products": ["CO"], "alpha": 1e-10, "reaction_type": 100, "idxfromfile": 50}]
+    pre = [{"op": "exec", "code": "from naunet.chemistrydata import update_binding_energy\nupdate_binding_energy({'#CO': 1300.0, '#O': 1660.0})\n"}]
+    out.append(("API-ice-user-binding", {"reactions": ice, "pre": pre, "network": {"grain_model": "hh93"}}, None, "api"))
+    from . import c11
+    for nm, fmt_, model, mk, user in (("ice-leeds-hh93-user-tables", "leeds", "hh93", c11.leeds_lines, {"binding": {"GCO": 855.0, "GCH4": 1234.5}, "yields": {"GCO": 0.0027, "GH2O": 0.5}}),
+                                      ("ice-uclchem-rr07x-user-tables", "uclchem", "rr07x", lambda: c11.ucl_lines() + c11.ucl_therm_lines(), {"binding": {"#CO": 1300.0, "#CH4": 1234.5}, "yields": {"#CO": 0.0027, "#H2O": 0.5}})):
+        sp_ = c11._spec(fmt_, model, mk(), user)
+        sp_.pop("targets", None)
+        if fmt_ == "leeds":
+            sp_["network"]["species_kwargs"] = {"surface_prefix": "G"}  # the Leeds spelling of ice species; also needed to read the written file back
+        out.append((nm, sp_, None, fmt_))
     return out
 
 
@@ -138,7 +153,9 @@ def _analyse(name, base, lines, fmt, tier, res):
     kw2 = dict(base)
     cyc = proj.render(f"{name}-cycle", dict(base, targets=[dict(tgt)], ops=[{"op": "write_read", "file": "w1.naunet", "format": "naunet"}, {"op": "write_read", "file": "w2.naunet", "format": "naunet"}]))
     if not cyc.ok:
-        res["viol"].append({"key": f"{name}:cycle-refused", "what": f"a network written in the native format cannot be read back: {cyc.meta.get('error')}", "replay": {"case": name}})
+        err_ = str(cyc.meta.get("error"))
+        key_ = "native-reader:leeds-ice-prefix" if (fmt == "leeds" and "starts with something unrecognizable" in err_) else f"{name}:cycle-refused"
+        res["viol"].append({"key": key_, "what": f"a network written in the native format cannot be read back: {err_[-300:]}", "replay": {"case": name, "format": fmt, "error": err_[-1500:]}})
     else:
         ra, rb = direct.meta["reactions"], cyc.meta["reactions"]
         if len(ra) != len(rb):
